@@ -250,9 +250,14 @@ Definition stop_world (pin : bool) (input : list N) : world * list nat * (N * N 
 
 (* the heap at the stopping point and the handles held then -- every handle the primitives have
    handed out and not taken back -- in the order in which the real program drops them *)
-Definition stop_state (pin : bool) (input : list N) : st * list nat * (N * N * N * list N) :=
+Definition list_eqb (a b : list nat) : bool := if list_eq_dec Nat.eq_dec a b then true else false.
+
+(* the last component: do the handles handed out by the primitives coincide with what the
+   simulation's own containers (Sim, event buffer, event set, caller) say is held -- i.e. no
+   primitive ever refused a move *)
+Definition stop_state (pin : bool) (input : list N) : st * list nat * (N * N * N * list N * bool) :=
   let '(w, want, info) := stop_world pin input in
-  (r_st (w_st w), reorder (r_roots (w_st w)) want, (info, w_log w)).
+  (r_st (w_st w), reorder (r_roots (w_st w)) want, (info, w_log w, list_eqb (reorder (r_roots (w_st w)) want) want)).
 
 Definition alive_users (h : heap) : N := N.of_nat (length (filter (fun ob => user_tag (otag ob) && live ob) h)).
 
@@ -266,8 +271,8 @@ Definition verdict (s' : st) : list N * list N * N * N * N :=
   (created, once, notonce, alive_users h', b2n (existsb live h')).
 
 Definition run_gen (pin : bool) (input : list N) : list N :=
-  let '(s, roots, (res, nrem, time, lg)) := stop_state pin input in
-  let ok := goodb pin s roots in
+  let '(s, roots, (res, nrem, time, lg, agree)) := stop_state pin input in
+  let ok := goodb pin s roots && agree in
   let '(created, once, notonce, alive, grew) := verdict (release_all s roots) in
   let rec := [b2n ok; res; nrem; time] ++ created ++ once ++ [notonce; alive; N.of_nat (length lg / 4)] ++ lg in
   (* the last number: is anything at all still allocated (the implementation: did the live heap
